@@ -388,14 +388,43 @@ Proof.
 Qed.
 
 (* ================= single map cells (rows 32-63 live in gfx bytes 4096..8191) ================= *)
+(* hg: whether the Map has its Gfx attached; without it only rows 0-31 are accessible *)
+Lemma map_get_cell_gen m g hg x y : zlen m = 4096 -> zlen g = 8192 -> 0 <= x <= 127 -> 0 <= y <= 63 ->
+  hg = true \/ y <= 31 ->
+  map_get_cell m g hg x y = Ok (get_cell m g x y).
+Proof.
+  intros Lm Lg Hx Hy Hg. unfold map_get_cell, get_cell.
+  rewrite assert_true by (unfold map_get_assert_x; lia). cbn [bind].
+  rewrite assert_true by (unfold map_get_assert_y; destruct Hg as [-> | Hg]; [cbn [negb]|destruct hg; cbn [negb]]; lia).
+  cbn [bind]. unfold map_get_upper, map_get_idx_map, map_get_idx_gfx.
+  destruct (y <=? 31) eqn:E1; destruct (y <? 32) eqn:E2; try lia; rewrite py_get_at by lia; reflexivity.
+Qed.
+
 Lemma map_get_cell_ok m g x y : zlen m = 4096 -> zlen g = 8192 -> 0 <= x <= 127 -> 0 <= y <= 63 ->
   map_get_cell m g true x y = Ok (get_cell m g x y).
+Proof. intros. apply map_get_cell_gen; auto. Qed.
+
+Lemma map_get_cell_nogfx m g x y : 32 <= y -> map_get_cell m g false x y = Err AssertionError.
 Proof.
-  intros Lm Lg Hx Hy. unfold map_get_cell, get_cell.
-  rewrite assert_true by (unfold map_get_assert_x; lia). cbn [bind].
-  rewrite assert_true by (unfold map_get_assert_y; cbn [negb]; lia). cbn [bind].
-  unfold map_get_upper, map_get_idx_map, map_get_idx_gfx.
-  destruct (y <=? 31) eqn:E1; destruct (y <? 32) eqn:E2; try lia; rewrite py_get_at by lia; reflexivity.
+  intros Hy. unfold map_get_cell. destruct (map_get_assert_x x); [|reflexivity]. cbn [assert_ bind].
+  assert (map_get_assert_y y (negb false) = false) as -> by (unfold map_get_assert_y; cbn [negb]; lia). reflexivity.
+Qed.
+
+Lemma map_set_cell_gen m g hg x y v : zlen m = 4096 -> zlen g = 8192 -> Forall byte m -> Forall byte g ->
+  0 <= x <= 127 -> 0 <= y <= 63 -> 0 <= v <= 255 -> hg = true \/ y <= 31 ->
+  map_set_cell m g hg x y v = Ok (set_cell (m, g) x y v) /\
+  zlen (fst (set_cell (m, g) x y v)) = 4096 /\ zlen (snd (set_cell (m, g) x y v)) = 8192 /\
+  Forall byte (fst (set_cell (m, g) x y v)) /\ Forall byte (snd (set_cell (m, g) x y v)).
+Proof.
+  intros Lm Lg Bm Bg Hx Hy Hv Hg. assert (Bv : byte v) by (unfold byte; lia). unfold map_set_cell, set_cell.
+  rewrite assert_true by (unfold map_set_assert_x; lia). cbn [bind].
+  rewrite assert_true by (unfold map_set_assert_y; destruct Hg as [-> | Hg]; [cbn [negb]|destruct hg; cbn [negb]]; lia).
+  cbn [bind].
+  rewrite assert_true by (unfold map_set_assert_v; lia). cbn [bind].
+  unfold map_set_upper, map_set_idx_map, map_set_idx_gfx.
+  destruct (y <=? 31) eqn:E1; destruct (y <? 32) eqn:E2; try lia;
+    rewrite py_set_byte_put by (assumption || lia); cbn [bind fst snd]; rewrite ?zlen_put;
+    repeat split; try assumption; apply Forall_put; assumption.
 Qed.
 
 Lemma map_set_cell_ok m g x y v : zlen m = 4096 -> zlen g = 8192 -> Forall byte m -> Forall byte g ->
@@ -403,15 +432,12 @@ Lemma map_set_cell_ok m g x y v : zlen m = 4096 -> zlen g = 8192 -> Forall byte 
   map_set_cell m g true x y v = Ok (set_cell (m, g) x y v) /\
   zlen (fst (set_cell (m, g) x y v)) = 4096 /\ zlen (snd (set_cell (m, g) x y v)) = 8192 /\
   Forall byte (fst (set_cell (m, g) x y v)) /\ Forall byte (snd (set_cell (m, g) x y v)).
+Proof. intros. apply map_set_cell_gen; auto. Qed.
+
+Lemma map_set_cell_nogfx m g x y v : 32 <= y -> map_set_cell m g false x y v = Err AssertionError.
 Proof.
-  intros Lm Lg Bm Bg Hx Hy Hv. assert (Bv : byte v) by (unfold byte; lia). unfold map_set_cell, set_cell.
-  rewrite assert_true by (unfold map_set_assert_x; lia). cbn [bind].
-  rewrite assert_true by (unfold map_set_assert_y; cbn [negb]; lia). cbn [bind].
-  rewrite assert_true by (unfold map_set_assert_v; lia). cbn [bind].
-  unfold map_set_upper, map_set_idx_map, map_set_idx_gfx.
-  destruct (y <=? 31) eqn:E1; destruct (y <? 32) eqn:E2; try lia;
-    rewrite py_set_byte_put by (assumption || lia); cbn [bind fst snd]; rewrite ?zlen_put;
-    repeat split; try assumption; apply Forall_put; assumption.
+  intros Hy. unfold map_set_cell. destruct (map_set_assert_x x); [|reflexivity]. cbn [assert_ bind].
+  assert (map_set_assert_y y (negb false) = false) as -> by (unfold map_set_assert_y; cbn [negb]; lia). reflexivity.
 Qed.
 
 Lemma mapget_ok s x y : wf_mem s -> in_contract (MapGet x y) = true -> op_ok s (MapGet x y).
